@@ -218,6 +218,12 @@ def c01(o):
         missing = [l for l in o['scheduled'] if l not in o['values']]
         if missing or o['unimplemented'] or o['unmet_inputs'] or o['unmet_fields']:
             return f'solve() returned True but lines {missing} have no value / unimplemented {o["unimplemented"]} / unmet {o["unmet_inputs"]} {o["unmet_fields"]}'
+        # success is a statement about the forms, not about the solver's own bookkeeping: every required line of every form
+        # reached from the request (and every line those demand) has a value
+        want, forms = closure(o['program'], o['requested'], o['config'])
+        lost = sorted(want - set(o['values']))
+        if lost:
+            return f'solve() returned True but {lost}, required by forms reached from the request, have no value'
     else:
         if not (o['unimplemented'] or o['unmet_inputs'] or o['unmet_fields']):
             return 'solve() returned False without naming any unimplemented line, missing input or blocked line'
@@ -265,8 +271,11 @@ def c06(o):
         for tr in o['traces'].get(line, []):
             if tr:
                 waits.add(tr[-1])
-        if n > 1 + len(waits) + 1:
-            return f'{line} evaluated {n} times with {len(waits)} distinct last-reads'
+        # one evaluation per distinct thing the line stopped at, one that completes, and one re-attempt for each distinct
+        # input of another form whose declaration had to be loaded first
+        foreign = {key for kind, key in waits if kind == 'i' and '.' in key and key.split('.')[0] != line.split('.')[0]}
+        if n > 1 + len(waits) + len(foreign):
+            return f'{line} evaluated {n} times with {len(waits)} distinct last-reads ({len(foreign)} of them inputs of another form)'
     return None
 
 
